@@ -114,6 +114,8 @@ ARR_OBJECT = ("", "N")                      # legal for any array derivation
 ARR_PARAM_OUTER = ("static N", "const N", "const *")  # 6.7.5.2p1: outermost derivation of a parameter only
 ARR_PROTO = ("*",)                          # 6.7.5.2p4: prototype scope only
 
+ARR_TYPED = ()  # keys of ARR_TABLE whose bound contains a type name (filled below)
+
 S_INT = (("word", "int"),)
 S_VOID = (("word", "void"),)
 S_T = (("tname", "T"),)
@@ -127,6 +129,29 @@ FN_TABLE = {
     "knr": FnInfo(None, False, ("a", "b")),
 }
 FN_PROTO = ("void", "int", "named", "va", "empty")
+
+
+def _typed_bounds():
+    a2 = ("arr", ((), ("c", "2")))
+    long_ = (("word", "long"),)
+    char_ = (("word", "char"),)
+    fn_intp = ("fn", ((Entity(None, (("ptr", ()),), S_INT),), False, None))
+    body = (Decln(S_INT, (Dtor("m", (("ptr", ()), a2), None, None),)),)
+    t = {
+        "sizeof(int *)": ("sizeof", TypeName(S_INT, (("ptr", ()),))),
+        "sizeof(int [2])": ("sizeof", TypeName(S_INT, (a2,))),
+        "(long)(char *)0": ("cast", TypeName(long_, ()), ("cast", TypeName(char_, (("ptr", ()),)), ("c", "0"))),
+        "_Alignof(void (*)(int *))": ("alignof", TypeName(S_VOID, (("ptr", ()), fn_intp))),
+        "sizeof(struct {int (*m)[2];})": ("sizeof", TypeName((("su", "struct", None, body),), ())),
+        "(int []){1, 2}[0]": ("index", ("complit", TypeName(S_INT, (("arr", ""),)),
+                                        ("list", (((), ("c", "1")), ((), ("c", "2"))), False)), ("c", "0")),
+    }
+    for k, v in t.items():
+        ARR_TABLE[k] = ((), v)
+    return tuple(t)
+
+
+ARR_TYPED = _typed_bounds()
 
 
 def Ptr(*quals):
@@ -234,7 +259,7 @@ def sym_class(sym):
         if dim == "*":
             inner += "*"
         elif dim is not None and not dq:
-            inner = "N"
+            inner = "N" if dim[0] in ("c", "id") else "type-name-bound"
         return f"array[{inner}]"
     fi = fn_info(sym)
     if fi.knr is not None:
@@ -264,7 +289,23 @@ def term_sig(seq):
 # render  (tokens)
 # ---------------------------------------------------------------------------
 def render_atom(e):
-    return [e[1]]
+    """Expression atoms: ("c", "3") | ("id", "K") and the type-name bearing
+    forms ("sizeof", TypeName) | ("alignof", TypeName) | ("cast", TypeName, e)
+    | ("complit", TypeName, init) | ("index", e, e)."""
+    k = e[0]
+    if k in ("c", "id"):
+        return [e[1]]
+    if k == "sizeof":
+        return ["sizeof", "("] + render_typename(e[1]) + [")"]
+    if k == "alignof":
+        return ["_Alignof", "("] + render_typename(e[1]) + [")"]
+    if k == "cast":
+        return ["("] + render_typename(e[1]) + [")"] + render_atom(e[2])
+    if k == "complit":
+        return ["("] + render_typename(e[1]) + [")"] + render_init(e[2])
+    if k == "index":
+        return render_atom(e[1]) + ["["] + render_atom(e[2]) + ["]"]
+    raise ValueError(e)
 
 
 def render_declarator(name, seq, redundant=False):
@@ -431,9 +472,22 @@ def render_decln(d, redundant=False):
 # expect  (canonical pycparser AST)
 # ---------------------------------------------------------------------------
 def expect_atom(e):
-    if e[0] == "c":
+    k = e[0]
+    if k == "c":
         return N("Constant", type="int", value=e[1])
-    return N("ID", name=e[1])
+    if k == "id":
+        return N("ID", name=e[1])
+    if k == "sizeof":
+        return N("UnaryOp", op="sizeof", expr=expect_typename(e[1]))
+    if k == "alignof":
+        return N("UnaryOp", op="_Alignof", expr=expect_typename(e[1]))
+    if k == "cast":
+        return N("Cast", to_type=expect_typename(e[1]), expr=expect_atom(e[2]))
+    if k == "complit":
+        return N("CompoundLiteral", type=expect_typename(e[1]), init=expect_init(e[2]))
+    if k == "index":
+        return N("ArrayRef", name=expect_atom(e[1]), subscript=expect_atom(e[2]))
+    raise ValueError(e)
 
 
 def expect_init(init):
@@ -513,8 +567,13 @@ def resolve(si, seq):
         head = iseq[0]
         if head[0] != "ptr":
             raise ValueError("_Atomic(array/function type) is not a C type")
-        hq = head[1] if "_Atomic" in head[1] else head[1] + ("_Atomic",)
-        return seq + (("ptr", hq),) + iseq[1:], quals + iquals, ibase
+        # qualifiers written next to the specifier qualify the atomic (pointer)
+        # type itself: `const _Atomic(int *) p` is `int * const _Atomic p`;
+        # qualifiers inside the type name stay on the level they were written
+        hq = tuple(quals) + tuple(q for q in head[1] if q not in quals)
+        if "_Atomic" not in hq:
+            hq += ("_Atomic",)
+        return seq + (("ptr", hq),) + iseq[1:], iquals, ibase
     q = quals + [x for x in iquals if x not in quals]
     if "_Atomic" not in q:
         q.append("_Atomic")
